@@ -97,4 +97,13 @@ def run():
                 ref = sol
             elif np.max(np.abs(sol - ref)) > 1e-6:
                 return n, dict(what, observed='solution depends on the device base: max difference %.3e' % float(np.max(np.abs(sol - ref))))
+            # the answer does not depend on what the object has been through: reset and solve again
+            ss.reset()
+            if not ss.PFlow.run():
+                return n, dict(what, observed='power flow after System.reset() did not converge')
+            again = np.concatenate((ss.Bus.v.v, ss.Bus.a.v))
+            mm = float(np.max(np.abs(mismatch(ss))))
+            if np.max(np.abs(again - sol)) > 1e-8 or not mm < TOL:
+                return n, dict(what, observed='after System.reset() the power flow differs from the first solution by %.3e (balance of the input data %.3e)' % (
+                    float(np.max(np.abs(again - sol))), mm))
     return n, None
